@@ -48,7 +48,10 @@ class Job:
     """One solver obligation = one Kani harness instance."""
 
     def __init__(self, crate, harness, timeout=600, expect="pass", params=None, group="", unwindset=None,
-                 allow_uncovered=(), note="", cbmc_args=None, weight=1, kind="kani", smt=None, tagged=False, unwind_by_fn=None):
+                 allow_uncovered=(), note="", cbmc_args=None, weight=1, kind="kani", smt=None, tagged=False, unwind_by_fn=None, need_any_cover=(), kf_twin=None, is_kf_twin=False):
+        self.kf_twin = kf_twin        # name of the twin harness in which the recorded known finding is assumed away
+        self.is_kf_twin = is_kf_twin
+        self.need_any_cover = tuple(need_any_cover)   # vacuity guard: at least one of these cover goals must be satisfied
         self.tagged = tagged          # assertions carry "[Cxx]" tags; only those of the property being checked count
         self.unwind_by_fn = unwind_by_fn or {}   # {substring of a function name: bound} -> --unwindset for the loops of that function
         self.kind = kind              # "kani" (CBMC on the compiled code) | "smt" (integer side obligation on an oracle)
@@ -319,6 +322,12 @@ def classify(job, verdict, out, timed_out, res):
         return
     if verdict == "SUCCESSFUL" or not hard:
         bad = [d for d, s in res.covers.items() if s != "SATISFIED" and d not in job.allow_uncovered]
+        if job.need_any_cover and not any(res.covers.get(d) == "SATISFIED" for d in job.need_any_cover):
+            if job.tagged and getattr(res, "other_property_failures", None):
+                # every path ends in a failure that belongs to another property (reported by that property's check)
+                res.note = "no path reaches the end of the harness: " + "; ".join(res.other_property_failures[:2])
+            else:
+                bad.append("none of: " + " / ".join(job.need_any_cover))
         if bad:
             res.status, res.reason = "inconclusive", "vacuity: cover goal(s) not satisfied: " + "; ".join(bad)
             return
@@ -726,6 +735,11 @@ def conclude(prop, tier, seed, spec, results, t0, scratch):
     replay_dir = os.path.join(VERIF, "replays", prop)
     for r in results:
         j = r.job
+        if j.is_kf_twin and r.status == "fail":
+            # only meaningful together with its plain sibling (handled there)
+            sib = [x for x in results if x.job.kf_twin == j.harness]
+            if sib and sib[0].status == "fail":
+                continue
         if j.expect == "fail":
             if r.status != "fail":
                 inconcl.append({"harness": j.harness, "reason": "vacuity twin did not fail (%s %s)" % (r.status, r.reason)})
@@ -737,6 +751,15 @@ def conclude(prop, tier, seed, spec, results, t0, scratch):
             continue
         # counterexample
         hit = [k for k in findings if finding_matches(k, prop, r)]
+        if j.is_kf_twin and not findings:
+            # no finding is recorded for this property: the twin has nothing to exclude; its plain sibling decides
+            continue
+        if hit and j.kf_twin:
+            tw = [x for x in results if x.job.harness == j.kf_twin]
+            if tw and tw[0].status == "fail":
+                hit = []          # the failure persists with the finding assumed away: a different violation
+            elif tw and tw[0].status == "inconclusive":
+                inconcl.append({"harness": j.kf_twin, "reason": "known-finding twin undecided: " + tw[0].reason})
         rep = r.replay or {}
         if rep.get("skipped"):
             extra_cex.append({"harness": j.harness, "reason": r.reason})
